@@ -38,6 +38,8 @@ EDITS = {
         ("st16", ST + "lib.rs", "if old_state_skeleton == new_state_skeleton {", "if old_state_skeleton != new_state_skeleton {", "verus", "state_tree"),
         ("st17", ST + "lib.rs", "vec![0u64; patch_plan.total_size]", "vec![1u64; patch_plan.total_size]", "verus", "state_tree"),
         ("st18", ST + "tree_diff.rs", "size,\n        }]", "size: size + 1,\n        }]", "verus", "state_tree"),
+        ("st20", ST + "tree.rs", "(Self::Feed(l0), Self::Feed(r0)) => l0.word_size() == r0.word_size(),", "(Self::Feed(l0), Self::Feed(r0)) => true,", "verus", "state_tree"),
+        ("st21", ST + "tree.rs", "(Self::FnCall(l0), Self::FnCall(r0)) => l0 == r0,", "(Self::FnCall(l0), Self::FnCall(r0)) => l0.len() == r0.len(),", "verus", "state_tree"),
         ("st19", ST + "tree_diff.rs", "child_patches_map.push(((old_idx, new_idx), patches, score));", "child_patches_map.push(((new_idx, old_idx), patches, score));", "verus", "state_tree"),
     ],
     "C05": [
